@@ -1,6 +1,6 @@
 //! C16 — inference windows tile the text exactly and respect the size limits.
 //! Engine A (DESIGN 5/C16): every non-empty string over a 5-symbol alphabet (1, 2, 3 and 4 byte code
-//! points and one cluster of two code points) x max 1..9 x context 0..4 x {char, byte} windows x
+//! points and one cluster of two code points) x max 1..12 x context 0..4 x {char, byte} windows x
 //! use_graphemes, plus the `full` window once per string and mode; every result of the real
 //! `windows::windows` is compared with clauses written from the statement over an independent
 //! table of cluster byte offsets.  The same strings x max x mode also go through
@@ -48,8 +48,10 @@ use tu_verif::guard::catch;
 use tu_verif::refs;
 use tu_verif::run::Run;
 
-const ALPHA: [&str; 5] = ["a", "ä", "€", "😀", "e\u{301}"];
-const MAXES: std::ops::RangeInclusive<usize> = 1..=9;
+/// 1-, 2-, 3- and 4-byte code points, a 3-byte two-code-point cluster and an 8-byte cluster (a flag:
+/// two regional indicators; in code-point mode two 4-byte characters)
+const ALPHA: [&str; 6] = ["a", "ä", "€", "😀", "e\u{301}", "🇩🇪"];
+const MAXES: std::ops::RangeInclusive<usize> = 1..=12;
 const CONTEXTS: std::ops::RangeInclusive<usize> = 0..=4;
 
 #[derive(Clone, Copy, PartialEq, Eq, Debug)]
